@@ -85,6 +85,18 @@ func loaderScenarios() []scenario {
 	}
 	wide["root.knut"] = rootInc.String() + root
 	ss = append(ss, scenario{Name: "load-wide-141-files-print", Files: wide, Args: []string{"print", "root.knut"}, Census: wideCensus})
+	// a file reached over two paths four levels down (q includes x and p, x includes p too):
+	// not a cycle, p is simply loaded twice; and a file that includes itself twice (two
+	// goroutines report the cycle at the same time)
+	deep := map[string]string{
+		"root.knut": "include \"y.knut\"\n" + root, "y.knut": "include \"q.knut\"\n" + a,
+		"q.knut": "include \"x.knut\"\ninclude \"p.knut\"\n" + b, "x.knut": "2020-01-03 price EUR 1.1 CHF\ninclude \"p.knut\"\n",
+		"p.knut": "2020-01-02 price USD 0.9 CHF\n",
+	}
+	ss = append(ss, scenario{Name: "load-deep-diamond-check", Files: deep, Args: []string{"check", "root.knut"}})
+	ss = append(ss, scenario{Name: "load-double-cycle-at-depth-3", Files: map[string]string{"root.knut": "include \"a.knut\"\n" + root, "a.knut": "include \"b.knut\"\n" + a,
+		"b.knut": "include \"root.knut\"\ninclude \"root.knut\"\n" + b},
+		Args: []string{"check", "root.knut"}, WantErr: []string{"include cycle"}})
 	// two different errors in two files: either may win
 	fs := map[string]string{"root.knut": flat["root.knut"], "a.knut": a + plants[0].text, "b.knut": b + plants[1].text}
 	ss = append(ss, scenario{Name: "load-flat-two-errors", Files: fs, Args: []string{"check", "root.knut"}, WantErr: []string{plants[0].want, plants[1].want}})
@@ -105,6 +117,8 @@ func pipelineScenarios(full bool) []scenario {
 		{"balance", "--color=false", "-m", "1:1,Assets", "--remap", "Liabilities", "--days"},
 		{"balance", "--color=false", "-v", "CHF", "-m", "1:2,Assets", "-m", "1:1,Liabilities"},
 		{"portfolio", "returns", "-v", "CHF", "--days"}, {"portfolio", "weights", "-v", "CHF", "--color=false", "--days"},
+		// valuation and --remap both look up counterpart accounts in the registry, from different stages
+		{"balance", "--color=false", "-v", "CHF", "--remap", "Assets|Income|Expenses", "--days"},
 	}
 	if !full {
 		// the quick tier drops --days (same processors, fewer registry lookups per day)
@@ -134,6 +148,17 @@ func pipelineScenarios(full bool) []scenario {
 	noPrice := ok + jr.T(days[1], "eur", jr.B(accOpening, accBaenk, "5", "EUR")).Render() + jr.A(days[2], jr.Bal{Acc: accChecking, Qty: "42", Com: "CHF"}).Render()
 	ss = append(ss, scenario{Name: "pipe-fail-price-day2-and-assertion-day3", Files: map[string]string{"j.knut": noPrice},
 		Args: []string{"balance", "--color=false", "-v", "CHF", "j.knut"}, WantErr: []string{"no price found", "failed assertion"}})
+	// print of a journal whose days hold their transactions in descending order (print has to sort them)
+	var rev []jr.Dir
+	for i := len(body) - 1; i >= 0; i-- {
+		rev = append(rev, body[i])
+	}
+	for _, d := range days {
+		for _, desc := range []string{"zz", "mm", "aa"} {
+			rev = append(rev, jr.T(d, desc, jr.B(accChecking, accFood, "2", "CHF")))
+		}
+	}
+	ss = append(ss, scenario{Name: "pipe-print-unsorted", Files: map[string]string{"j.knut": jr.RenderAll(append(opensPrefix(), rev...))}, Args: []string{"print", "j.knut"}})
 	// an accrual spread over four month ends, valued at a price that changes between
 	// the instalments (the instalment transactions are generated, not parsed)
 	acc := append(append([]jr.Dir(nil), body...), jr.P("2020-03-31", "USD", "0.97", "CHF"), jr.P("2020-04-30", "USD", "0.99", "CHF"),
